@@ -72,4 +72,22 @@
 	    ((g_k < 4 * (size_t) (i)) ==> HDR(msg)[(h0) + g_k] == g_b) &&     \
 	    ((g_k >= 4 * (size_t) (i) && g_k < g_len0) ==> (msg)->m_body.ch_ptr[g_k - 4 * (size_t) (i)] == g_b) && \
 	    (size_t) (i) <= g_n)
+/* ---- outcome-keyed variant (no g_n; used where the 16 body reads of BT_COUNT_REQ do not fit into memory) ----
+ * With W = len/4 complete words the three classes are
+ *   ACCEPT  : some word n < ttl has the high bit and no earlier one has
+ *   GARBAGE : W < ttl and none of the W words has the high bit
+ *   TOOMANY : W >= ttl and none of the first ttl words has the high bit
+ * (disjoint, exhaustive).  A contract states "exactly one outcome happens" and
+ * "outcome ==> its class" for EVERY ghost byte (g_k, g_b); since the classes are
+ * disjoint and exhaustive this is equivalent to "class ==> outcome". */
+#define BT_NO_END_BELOW(lim) ((g_k % 4 == 0 && g_k / 4 < (size_t) (lim)) ==> !BT_HB(g_b))
+#define BT_LOOP_INV2(msg, i, h0)                                           \
+	((msg)->m_header_len == (h0) + 4 * (size_t) (i) && (msg)->m_refcnt.v == 1 && \
+	    (msg)->m_body.ch_cap == g_cap0 && (msg)->m_body.ch_buf == (uint8_t *) g_p && \
+	    4 * (size_t) (i) <= g_len0 && (msg)->m_body.ch_len == g_len0 - 4 * (size_t) (i) && \
+	    __CPROVER_same_object((msg)->m_body.ch_buf, (msg)->m_body.ch_ptr) && CH_FULL_SCALAR(&(msg)->m_body) && \
+	    (((msg)->m_body.ch_len != 0) ==> CH_OFF(&(msg)->m_body) == g_off0 + 4 * (size_t) (i)) && \
+	    ((g_k < 4 * (size_t) (i)) ==> HDR(msg)[(h0) + g_k] == g_b) &&     \
+	    ((g_k >= 4 * (size_t) (i) && g_k < g_len0) ==> (msg)->m_body.ch_ptr[g_k - 4 * (size_t) (i)] == g_b) && \
+	    BT_NO_END_BELOW(i))
 #endif
